@@ -22,6 +22,7 @@ RULE = ("Hypothesis: (sequence, numerator, denominator in {1,2,3,4,6,8,12,16,24,
         "present. Distinct by case digest.")
 RULE = RULE + " Rounds e-f: zero-length grace notes, a read of the absolute view / duration before copy, arbitrary ill-formed relative lists ('any sequence')."
 RULE = RULE + " Round h: an INTERNAL end marker added through add_absolute_message after the relative view was read."
+RULE = RULE + " Round i: stray time attributes on hand-written relative note messages."
 ASSUMPTIONS = ["a duplicate identical signature may be accepted or rejected (normalise may merge it)"]
 TIERS = {"quick": dict(shards=8, examples=1200), "thorough": dict(fuzz_runs=20000, fuzz_shards=4, shards=16, examples=15000)}
 
@@ -93,6 +94,7 @@ def _case(draw):
         case["raw"] = [list(x) for x in draw(st.lists(m, min_size=1, max_size=10))]
         if draw(st.booleans()):
             case["raw"].insert(0, ["on", 0, 62, 80])        # never closed, in front of everything
+        case["stray_time"] = draw(st.booleans())
         return case
     if draw(st.integers(0, 5)) == 0:
         # grace notes: a note-on directly followed by its note-off (zero length) in a hand-written relative message list;
@@ -116,13 +118,16 @@ def check(case):
         out.label("ill-formed-input")
         try:
             msgs = []
-            for m in case["raw"]:
+            for k, m in enumerate(case["raw"]):
+                # (every third hand-written note message still carries a meaningless `time`, as a copy taken from an absolute
+                # view would; in the relative view only WAIT messages have a duration)
+                stray = {"time": 7 + k} if case.get("stray_time") and k % 3 == 0 else {}
                 if m[0] == "w":
                     msgs.append(Message(message_type=MT.WAIT, time=m[1]))
                 elif m[0] == "on":
-                    msgs.append(Message(message_type=MT.NOTE_ON, channel=m[1], note=m[2], velocity=m[3]))
+                    msgs.append(Message(message_type=MT.NOTE_ON, channel=m[1], note=m[2], velocity=m[3], **stray))
                 else:
-                    msgs.append(Message(message_type=MT.NOTE_OFF, channel=m[1], note=m[2]))
+                    msgs.append(Message(message_type=MT.NOTE_OFF, channel=m[1], note=m[2], **stray))
             seq = Sequence(relative_sequence=RelativeSequence(msgs))
             ev0, d0 = O.seq_events(seq)
         except Exception as e:
